@@ -92,6 +92,13 @@ CHECKS["C10"] = dict(
     design_ref="3/C10",
 )
 
+CHECKS["C14"] = dict(
+    technique="exhaustive enumeration of all small frames and all coordinates in and around them against an explicit lattice-geometry model",
+    text="Every BoolGridFrame with 0<=h,w<=5 (thorough 8), ids starting at 0 and at an offset: frame[Y,X] for every doubled coordinate in [-2,2h+2]x[-2,2w+2] (segment identity or IndexError: parity, range, negatives), cell_neighbors and vertex_neighbors for every cell/point in and around the frame in both call styles (exact edge sets or IndexError), array shapes and element identity, all_edges == iteration with every segment exactly once, dual() keeps every variable on its geometric segment, dual of dual equals the original accessor by accessor, inner iteration, and the (edge list, graph) that the loop constraints infer pairs each variable with the two lattice points it joins. Exhaustive in the scope; the code has no size-dependent branches beyond it.",
+    note="Trusted base: vlib/lattice (80 lines of geometry). Variable-to-segment mapping by documented construction order. 10/10 sensitivity mutants caught.",
+    design_ref="3/C14",
+)
+
 NOT_BUILT_REASON = "check not built yet in this session (planned in DESIGN.md section 3); not claimed until it runs quietly and is mutation-tested"
 
 def main():
